@@ -11,7 +11,7 @@ package main
 //	    tree = syntax.Parse(text between the slashes, syntax.Perl) – the very tree findRegexpShortcut
 //	    consults; shortcut = rule.Shortcut.  Model: `shortcutJustified shortcut tree` (what the Go
 //	    filter establishes by construction); spec: `shortcutJustified shortcut ctree` – empty, or
-//	    contained in a literal required by the COMPILED expression, which by theorem `c05_justified`
+//	    contained in a merged literal run required by the COMPILED expression, which by theorem `c05_justified_runs`
 //	    makes it a factor of every accepted URL.  F = a rule whose shortcut the theorem does not cover
 //	    (for the D4 defect: one that some accepted URL lacks).
 //	c05.url <ctree> x<shortcut> x<url> = T|F        ## rule text, URL
